@@ -16,6 +16,8 @@ type runner func(res *Result, d *Driver, g *Rng, tier string)
 
 var runners = map[string]runner{}
 
+var layoutsPath = "/verif/lean/SmsVerif/Gen/layouts.json"
+
 // replayers re-execute protocol lines on the implementation (one output line per input line)
 var replayers = map[string]func([]string) []string{}
 
